@@ -8,7 +8,7 @@
    `presented s` = samples made available to read/take, `s_log s` = publication log,
    `s_changes s` = what the writer still holds, `delivered s` = every held change that is relevant for
    the reliable matched reader is in its presented list. *)
-From DustDDS Require Import Base.Machine Proto.RelModel Proto.RelProofs Proto.RelLive Proto.RelWitness.
+From DustDDS Require Import Base.Machine Proto.RelModel Proto.RelProofs Proto.RelSoundG Proto.RelLive Proto.RelWitness.
 Open Scope Z_scope.
 
 (* SAFETY, unbounded: for every configuration and EVERY finite schedule (any loss, duplication,
@@ -23,18 +23,20 @@ Theorem C01_reliable_safety :
     NoDup (presented s).
 Proof. exact safety_all. Qed.
 
-(* LIVENESS, the statement at full strength: after the healing rounds granted to the schedule every
-   held relevant change has been presented ... *)
-Definition C01_reliable_liveness_statement : Prop :=
-  forall cf sched k, (rounds_needed sched <= k)%nat -> delivered (run cf init (sched ++ heal k)).
+(* NOTHING IS SKIPPED, unbounded, every history QoS (KEEP_LAST with several instances, removals from the
+   history cache included): whatever the RELIABLE reader accounts for - every sequence number up to
+   available_changes_max, which is what its ACKNACKs acknowledge - has been presented as far as the writer
+   still holds it and it is relevant for this reader.  (Before 91937ff a GAP raised highest_received past
+   undelivered, still held samples: former finding C01-gap-skip.) *)
+Theorem C01_reliable_no_skip :
+  forall (cf : cfg) (sched : list action),
+    let s := run cf init sched in
+    forall p r w, s_rp s = Some p -> rp_rel p = true -> s_rd s = Some r -> rd_wp r = Some w ->
+      forall c, In c (s_changes s) -> rp_fr p < c_sn c -> c_sn c <= avail_max w -> In c (rd_pres r).
+Proof. exact no_skip. Qed.
 
-(* ... is FALSE on the faithful model (known finding C01-gap-skip): KEEP_LAST(1) with two instances,
-   the writer holds {1,3}; DATA(1) is lost, GAP(2) is delivered and raises highest_received past the
-   undelivered, still held sample 1, which is never requested again. *)
-Theorem C01_reliable_liveness_refuted_gap_skip : ~ C01_reliable_liveness_statement.
-Proof. exact reliable_liveness_full_refuted. Qed.
-
-(* LIVENESS, the proved part (stage 1: hole-free and unfragmented).  KEEP_ALL writer (depth = 0), schedules
+(* LIVENESS, the proved part (stage 1: hole-free and unfragmented; the general case - histories with holes,
+   fragmented samples - is exercised by the scenarios of the check and by the examples below).  KEEP_ALL writer (depth = 0), schedules
    without removal from the history cache and without deletion of the reader, every sample fits one DATA
    submessage, at most 256 samples: after ANY such schedule (all loss / duplication / reordering /
    delay patterns, late joiners of any durability), five ticks of the worker (250 ms >= the heartbeat
@@ -60,12 +62,19 @@ Theorem C01_reliable_liveness_heal_partial :
     s_last s <= 256 -> s_net s = [] -> delivered s.
 Proof. exact reliable_liveness_heal. Qed.
 
-(* the witness in detail (replayed on the real stack by the corpus of the check) *)
-Theorem C01_gap_skip_witness :
-  let s := run cf_gap init sched_gap in
-  s_changes s = [mkCh 1 1 24 11; mkCh 3 2 24 33] /\ presented s = [mkCh 3 2 24 33] /\ s_net s = [] /\
-  is_acked (s_rp s) (s_last s) = true /\ snd (step cf_gap s AWfhPoll) = OPoll [0].
-Proof. exact gap_skip_witness. Qed.
+(* the schedule that exposed C01-gap-skip, on the repaired code (replayed on the real stack by the corpus of
+   the check): KEEP_LAST(1), two instances, the writer holds {1,3}, DATA(1) is lost: the non-contiguous
+   GAP(2) is ignored and one healing round delivers 1 and 3, in order *)
+Theorem C01_gap_skip_repaired :
+  let s0 := run cf_gap init sched_gap in
+  let s := run cf_gap s0 (heal 1) in
+  s_changes s0 = [mkCh 1 1 24 11; mkCh 3 2 24 33] /\
+  presented s0 = [] /\ ackd s0 = false /\
+  snd (step cf_gap s0 AWfhPoll) = OPoll [1] /\ snd (step cf_gap s0 AWfaPoll) = OPoll [1] /\
+  presented s = [mkCh 1 1 24 11; mkCh 3 2 24 33] /\
+  s_net s = [] /\ ackd s = true /\
+  snd (step cf_gap s AWfhPoll) = OPoll [0] /\ snd (step cf_gap s AWfaPoll) = OPoll [0].
+Proof. exact gap_skip_repaired. Qed.
 
 (* non-vacuity: loss + reordering + duplication repaired by one healing round; a lost fragment and a
    completely lost fragmented sample repaired by HEARTBEAT -> ACKNACK -> fragment 1 -> NACK_FRAG *)
@@ -86,7 +95,7 @@ Example C01_nonvacuous_lost_fragmented_sample :
 Proof. exact heal_example_lost_fragmented_sample. Qed.
 
 Print Assumptions C01_reliable_safety.
-Print Assumptions C01_reliable_liveness_refuted_gap_skip.
+Print Assumptions C01_reliable_no_skip.
 Print Assumptions C01_reliable_liveness_partial.
 Print Assumptions C01_reliable_liveness_heal_partial.
-Print Assumptions C01_gap_skip_witness.
+Print Assumptions C01_gap_skip_repaired.
